@@ -76,43 +76,19 @@ Proof. destruct j; simpl; try discriminate. apply np_mapM. intros; apply np_bulk
 Theorem dec_metadata_no_panic j : dec_metadata j <> Panic.
 Proof. apply np_metadata. Qed.
 
-(* ---- v1 Script.ToCore: exactly which variables panic *)
-Definition v1_bad_var (v : ajson) : bool := match v with AJNum _ _ | AJBool _ | AJArr _ => true | _ => false end.
-Lemma v1_var_panic_iff v : v1_var v = Panic <-> v1_bad_var v = true.
+(* ---- v1 Script.ToCore *)
+Lemma np_v1_var v : NP (v1_var v).
 Proof.
-  destruct v as [| b | m e | s | l | m]; simpl; split; intros H; try discriminate; try reflexivity.
-  exfalso. revert H.
+  destruct v as [| b | m e | s | l | m]; simpl; try discriminate.
   destruct (jfield "asset" m) as [a|]; simpl; [|discriminate].
   destruct (dec_string a); simpl; try discriminate.
   destruct (jfield "amount" m) as [[| | n [e|] | | |]|]; simpl; discriminate.
 Qed.
-Lemma mapM_v1_np l : (forall kv, In kv l -> v1_bad_var (snd kv) = false) ->
-  NP (mapM (fun kv : string * ajson => x <- v1_var (snd kv);; Ok (fst kv, x)) l).
-Proof.
-  induction l as [|kv r IH]; intros H; simpl; [apply np_ok|].
-  apply np_bind.
-  - apply np_bind; [|intros; apply np_ok]. intros E. apply v1_var_panic_iff in E. rewrite (H kv (or_introl eq_refl)) in E. discriminate.
-  - intros y. apply np_bind; [|intros; apply np_ok]. apply IH. intros kv' Hin. apply H. right; exact Hin.
-Qed.
-Theorem v1_script_to_core_panic_iff s :
-  v1_script_to_core s = Panic <-> exists kv, In kv (rr_vars s) /\ v1_bad_var (snd kv) = true.
-Proof.
-  unfold v1_script_to_core.
-  destruct (existsb (fun kv => is_panic (v1_var (snd kv))) (rr_vars s)) eqn:E.
-  - split; [intros _|reflexivity]. apply existsb_exists in E. destruct E as [kv [Hin Hp]]. exists kv. split; [exact Hin|].
-    apply v1_var_panic_iff. destruct (v1_var (snd kv)); simpl in Hp; try discriminate. reflexivity.
-  - split.
-    + intros H. exfalso. revert H. apply np_bind; [|intros; apply np_ok]. apply mapM_v1_np. intros kv Hin.
-      destruct (v1_bad_var (snd kv)) eqn:B; [|reflexivity].
-      assert (existsb (fun kv => is_panic (v1_var (snd kv))) (rr_vars s) = true) as X.
-      { apply existsb_exists. exists kv. split; [exact Hin|]. apply v1_var_panic_iff in B. rewrite B. reflexivity. }
-      rewrite X in E. discriminate.
-    + intros [kv [Hin B]]. exfalso.
-      assert (existsb (fun kv => is_panic (v1_var (snd kv))) (rr_vars s) = true) as X.
-      { apply existsb_exists. exists kv. split; [exact Hin|]. apply v1_var_panic_iff in B. rewrite B. reflexivity. }
-      rewrite X in E. discriminate.
-Qed.
+Lemma np_v1_script_to_core s : NP (v1_script_to_core s).
+Proof. unfold v1_script_to_core. np. apply np_v1_var. Qed.
 Lemma np_script_v1api j : NP (dec_script_v1api j). Proof. unfold dec_script_v1api. np. Qed.
+Theorem decode_v1_script_no_panic j : decode_v1_script j <> Panic.
+Proof. unfold decode_v1_script. apply np_bind; [apply np_script_v1api|intros; apply np_v1_script_to_core]. Qed.
 
 (* ================================================================== decimal text of integers *)
 Definition numch (c : ascii) : bool := (is_digit c || Ascii.eqb c "-")%bool.
